@@ -548,7 +548,15 @@ def r2_7(ctx, R, counter, head):
                 chain.append(nm.split("::")[-1])
                 if nm.endswith("::map"):
                     mf = x[2][1]
-                    chain.append("map-fn=" + (mf[1] if mf[0] == "fn" else "?"))
+                    mfn = mf[1] if mf[0] == "fn" else "?"
+                    if mf[0] == "agg" and mf[1].startswith("closure:"):
+                        # |i| Slot::Free{next: i}: a closure returning the free variant built from its own argument
+                        cb_ = ctx.facts.bodies.get(mf[1][len("closure:"):])
+                        if cb_ is not None:
+                            r_ = ctx.flow(cb_).local_expr(0)
+                            if r_[0] == "agg" and len(r_[2]) == 1 and strip_refs(r_[2][0]) == ("param", 2):
+                                mfn = r_[1]
+                    chain.append("map-fn=" + mfn)
                 if "RangeInclusive" in nm and nm.endswith("::new"):
                     rng = x
                     break
